@@ -1644,6 +1644,11 @@ class AbsInt:
                 return ('itemgetter', args[0])
             if key in ('itertools.islice', 'islice') and len(args) == 2 and isinstance(args[1], int):
                 return AList(self.iterate(args[0], node, keep_vars=True)[:args[1]], 'list')
+            # an un-modelled library call: it may raise.  Rules can ask for the k-th such call of a run to fail.
+            self.ext_calls = getattr(self, 'ext_calls', 0) + 1
+            self.ext_call_names = getattr(self, 'ext_call_names', []) + [f.name]
+            if getattr(self, 'inject_fault_at', None) == self.ext_calls:
+                raise AbsRaise('InjectedFault', node)
             return Opaque(f'external {f.name}')
         if f is isinstance:
             return self.isinstance_(args, node)
